@@ -68,4 +68,33 @@ theorem string_roundtrip (s rest : Octets) (h0 : s ≠ []) (hl : s.length < 2 ^ 
     stringDecode (stringEncode s ++ rest) = ((stringEncode s).length, s) :=
   Pgp.string_roundtrip s rest h0 hl
 
+
+/-- **S2K: the whole salt ‖ passphrase is hashed at least once** (RFC 4880 §3.7.1.3, "the one
+    exception"), whatever the octet count -/
+theorem s2k_full_input_once (input : List Nat) (cnt : Nat) : input <+: s2kFeed input cnt :=
+  Pgp.s2kFeed_prefix input cnt
+
+/-- the number of octets hashed is the octet count, or the size of salt ‖ passphrase if larger -/
+theorem s2k_feed_length (input : List Nat) (cnt : Nat) :
+    (s2kFeed input cnt).length = max input.length cnt :=
+  Pgp.s2kFeed_length input cnt
+
+/-- what is hashed is the periodic repetition of salt ‖ passphrase, cut off (possibly inside a copy) -/
+theorem s2k_feed_periodic (input : List Nat) (cnt k : Nat) (hk : k < max input.length cnt) :
+    (s2kFeed input cnt)[k]? = some (input.getD (k % input.length) 0) :=
+  Pgp.s2kFeed_periodic input cnt k hk
+
+/-- context `j` is preloaded with `j` zero octets -/
+theorem s2k_context_preload (hashlen sklen : Nat) (salt pw : List Nat) (iterated : Bool) (c j : Nat)
+    (hs : salt.length = 8) (hl : 0 < hashlen) (hj : j < sklen / hashlen + 1) :
+    (s2kStreams hashlen sklen salt pw iterated c)[j]? =
+      some (List.replicate j 0 ++ s2kFeed (salt ++ pw) (if iterated then s2kCountDecode c else 0)) :=
+  Pgp.s2kStreams_getElem hashlen sklen salt pw iterated c j hs hl hj
+
+/-- the derived key has exactly the requested length -/
+theorem s2k_key_length (H : List Nat → List Nat) (hashlen sklen : Nat) (salt pw : List Nat)
+    (iterated : Bool) (c : Nat) (hH : ∀ x, (H x).length = hashlen) (hs : salt.length = 8)
+    (hl : 0 < hashlen) : (s2kKey H hashlen sklen salt pw iterated c).length = sklen :=
+  Pgp.s2kKey_length H hashlen sklen salt pw iterated c hH hs hl
+
 end Tmcg.C19
